@@ -156,6 +156,77 @@ def isolated(fn, *args):
     return value
 
 
+# ------------------------------------------------------------------------------------------------
+# the optimised interpreter (python -O) as a world dimension
+# ------------------------------------------------------------------------------------------------
+
+_OPT = {}
+
+
+def _opt_helper():
+    """This process' `python -O` helper (started on first use, ends when this process does)."""
+    import struct  # noqa: F401
+
+    pid = os.getpid()
+    h = _OPT.get(pid)
+    if h is None or h.poll() is not None:
+        from . import opt_helper
+
+        env = dict(os.environ)
+        env["PYTHONHASHSEED"] = "0"
+        env["VERIF_KEEP_HASHSEED"] = "1"
+        env.pop("PYTHONOPTIMIZE", None)
+        env["TMPDIR"] = base_tmp()
+        h = subprocess.Popen([sys.executable, "-O", os.path.abspath(opt_helper.__file__)], stdin=subprocess.PIPE,
+                             stdout=subprocess.PIPE, env=env, cwd=VERIF)
+        hello = opt_helper._read(h.stdout)
+        if not hello or hello[0] != "hello" or hello[1] < 1:
+            raise Harness("the optimised-interpreter helper did not start: %r" % (hello,))
+        _OPT.clear()
+        _OPT[pid] = h
+        def _stop(proc=h):
+            # closing its stdin lets the helper leave through its normal exit path (and remove its scratch directory)
+            try:
+                proc.stdin.close()
+                proc.wait(timeout=10)
+            except Exception:  # noqa: BLE001
+                proc.kill()
+
+        atexit.register(_stop)
+    return h
+
+
+def in_optimised_interpreter(request):
+    """Execute ("run_index", engine, seed, tier, i) or ("execute_run", engine, run) under `python -O`."""
+    from . import opt_helper
+
+    h = _opt_helper()
+    opt_helper._write(h.stdin, request)
+    reply = opt_helper._read(h.stdout)
+    if reply is None:
+        raise RunDied("the optimised-interpreter helper went away")
+    if reply[0] == "died":
+        raise RunDied(reply[1])
+    if reply[0] == "err":
+        raise Harness("optimised-interpreter run raised " + reply[1])
+    return reply[1]
+
+
+def world_is_optimised(engine_name, seed, tier, i):
+    """About one run index in sixteen lives in an interpreter started with -O (a pure function of the index)."""
+    import hashlib
+
+    h = hashlib.sha256(("pyopt|%s|%s|%s|%d" % (engine_name, seed, tier, i)).encode()).digest()
+    return h[0] % 16 == 0
+
+
+def execute_run_any(eng, run, tmpdir):
+    """execute_run in a forked child - of this process, or of the -O helper when the run's world is optimised."""
+    if run.get("pyopt") and not sys.flags.optimize:
+        return in_optimised_interpreter(("execute_run", eng.NAME, run))
+    return isolated(eng.execute_run, run, tmpdir)
+
+
 _PRELOADED = set()
 
 
@@ -178,6 +249,17 @@ def _work(engine_name, tier, seed, start, end, hard_timeout):
         out = []
         for i in range(start, end):
             try:
+                if world_is_optimised(engine_name, seed, tier, i) and not sys.flags.optimize:
+                    res = in_optimised_interpreter(("run_index", engine_name, seed, tier, i))
+                    res["pyopt"] = True
+                    for v in res.get("violations", []):
+                        if isinstance(v.get("run"), dict):
+                            v["run"]["pyopt"] = True
+                    if isinstance(res.get("run"), dict):
+                        res["run"]["pyopt"] = True
+                    res.setdefault("counters", {})["interpreter.python_-O"] = 1
+                    out.append(res)
+                    continue
                 out.append(isolated(eng.run_index, seed, tier, i, worker_tmp()))
             except RunDied as e:
                 if not hasattr(eng, "discard_result"):
@@ -281,7 +363,14 @@ def confirm_replay(path, timeout=300):
     """Replay in a fresh interpreter; returns (reproduced, output)."""
     env = dict(os.environ)
     env["PYTHONHASHSEED"] = "0"
-    p = subprocess.run([sys.executable, os.path.join(VERIF, "simcheck.py"), "--replay", path],
+    argv = [sys.executable]
+    try:
+        with open(path) as f:
+            if json.load(f).get("run", {}).get("pyopt"):
+                argv.append("-O")  # the violating world is an interpreter started with -O
+    except (OSError, ValueError, AttributeError):
+        pass
+    p = subprocess.run(argv + [os.path.join(VERIF, "simcheck.py"), "--replay", path],
                        capture_output=True, text=True, timeout=timeout, env=env)
     return p.returncode == 1 and "REPLAY-REPRODUCED" in p.stdout, p.stdout + p.stderr
 
@@ -302,7 +391,7 @@ def minimise(eng, run, violation, tmpdir, max_exec=400, max_seconds=75):
             if executed > max_exec or time.time() - t0 > max_seconds:
                 break
             try:
-                res = isolated(eng.execute_run, cand, tmpdir)
+                res = execute_run_any(eng, cand, tmpdir)
             except Exception:
                 continue
             same = [v for v in res["violations"] if eng.signature(v, cand) == target]
@@ -338,9 +427,11 @@ def report(prop, tier, seed, eng, results, tmpdir):
             continue
         run = v.get("run") or r.get("run") or eng.rebuild_run(seed, tier, r["index"], tmpdir)
         v = {k: x for k, x in v.items() if k != "run"}
+        if r.get("pyopt"):
+            run = dict(run, pyopt=True)
         small, sv, n_exec = minimise(eng, run, v, tmpdir)
         sv = {k: x for k, x in sv.items() if k != "run"}
-        res = isolated(eng.execute_run, small, tmpdir)
+        res = execute_run_any(eng, small, tmpdir)
         doc = {
             "property": prop,
             "engine": eng.NAME,
